@@ -20,6 +20,9 @@ enum St {
     Running,
     Parked,
     Done,
+    /// granted, but spinning at the turnstile of a by-value iterator source that another actor holds
+    /// while parked inside `next()`; not schedulable until the holder has released the source
+    Blocked,
 }
 
 #[derive(Clone, Copy, PartialEq, Eq, Debug)]
@@ -50,6 +53,10 @@ pub struct Inner {
     pub runs_begun: u32,
     pub max_live: usize,
     live: usize,
+    /// actor parked inside the source's next() (holding the turnstile)
+    held: Option<usize>,
+    grant_time: Instant,
+    pub blocked_seen: u32,
 }
 
 static INNER: Mutex<Option<Inner>> = Mutex::new(None);
@@ -99,6 +106,9 @@ pub fn init() {
         runs_begun: 0,
         max_live: 0,
         live: 0,
+        held: None,
+        grant_time: Instant::now(),
+        blocked_seen: 0,
     });
 }
 
@@ -122,6 +132,8 @@ pub fn begin_program(sched: bool, script: Vec<u32>, seed: u64, sticky: f64, log_
     s.runs_begun = 0;
     s.max_live = 0;
     s.live = 0;
+    s.held = None;
+    s.blocked_seen = 0;
 }
 
 pub fn end_program() -> (Vec<u32>, Option<(usize, u32, Vec<u32>)>, u32, usize) {
@@ -188,7 +200,13 @@ fn candidates(s: &Inner) -> Vec<u32> {
 }
 
 fn pick_next(s: &mut Inner) {
-    let c = candidates(s);
+    let mut c = candidates(s);
+    // the actor that holds the source inside next() goes last: everybody else first runs as far as it can
+    if let Some(h) = s.held {
+        if c.len() > 1 {
+            c.retain(|x| *x as usize != h);
+        }
+    }
     if c.is_empty() {
         s.granted = None;
         CV.notify_all();
@@ -216,7 +234,35 @@ fn pick_next(s: &mut Inner) {
     s.last = x as usize;
     s.grants.push(x);
     s.granted = Some(x as usize);
+    s.grant_time = Instant::now();
     CV.notify_all();
+}
+
+fn someone_running(s: &Inner) -> bool {
+    match s.granted {
+        None => false,
+        Some(0) => s.sp == Sp::Running,
+        Some(w) => s.workers.get(w - 1).map(|x| *x == St::Running).unwrap_or(false),
+    }
+}
+
+/// The holder of the source watches the actor that has the baton: a worker that was granted and has
+/// not parked within a few milliseconds is spinning at the turnstile we hold; it is set aside as
+/// Blocked and the baton goes to the next actor.
+fn unblock_watch(s: &mut Inner, me: usize) {
+    if s.held != Some(me) {
+        return;
+    }
+    if let Some(w) = s.granted {
+        if w >= 1 && w != me && w <= s.workers.len() && s.workers[w - 1] == St::Running
+            && s.grant_time.elapsed() > Duration::from_millis(3)
+        {
+            s.workers[w - 1] = St::Blocked;
+            s.blocked_seen += 1;
+            log_in(s, &format!("\"e\":\"blocked\",\"a\":{}", w));
+            pick_next(s);
+        }
+    }
 }
 
 const STUCK: Duration = Duration::from_secs(20);
@@ -230,6 +276,10 @@ fn wait_grant(mut g: MutexGuard<'static, Option<Inner>>, me: usize) -> MutexGuar
             if s.abandon || !s.sched || s.granted == Some(me) {
                 return g;
             }
+            unblock_watch(s, me);
+            if s.granted == Some(me) {
+                return g;
+            }
             if start.elapsed() > STUCK {
                 s.abandon = true;
                 log_in(s, "\"e\":\"abandon\"");
@@ -237,10 +287,34 @@ fn wait_grant(mut g: MutexGuard<'static, Option<Inner>>, me: usize) -> MutexGuar
                 return g;
             }
         }
+        let holding = g.as_ref().map(|s| s.held == Some(me)).unwrap_or(false);
         g = CV
-            .wait_timeout(g, Duration::from_millis(200))
+            .wait_timeout(g, Duration::from_millis(if holding { 1 } else { 200 }))
             .unwrap_or_else(|e| e.into_inner())
             .0;
+    }
+}
+
+/// Called by the instrumented source iterator at its hold position: the calling worker parks INSIDE
+/// next(), i.e. while it holds the turnstile of the concurrent iterator.
+pub fn source_hold_point() {
+    let me = actor() as usize;
+    let mut g = lock();
+    {
+        let s = g.as_mut().expect("init");
+        if !(s.sched && !s.abandon && me >= 1 && me <= s.workers.len()) || s.held.is_some() {
+            return;
+        }
+        s.held = Some(me);
+        log_in(s, &format!("\"e\":\"hold\",\"a\":{}", me));
+        s.workers[me - 1] = St::Parked;
+        pick_next(s);
+    }
+    let mut g = wait_grant(g, me);
+    let s = g.as_mut().expect("init");
+    s.held = None;
+    if let Some(w) = s.workers.get_mut(me - 1) {
+        *w = St::Running;
     }
 }
 
@@ -328,10 +402,11 @@ impl orx_parallel::verif::Hooks for H {
         log_in(s, &body);
         s.live = s.live.saturating_sub(1);
         ACTOR.with(|a| a.set(0));
+        let was_blocked = me >= 1 && me <= s.workers.len() && s.workers[me - 1] == St::Blocked;
         if me >= 1 && me <= s.workers.len() {
             s.workers[me - 1] = St::Done;
         }
-        if s.sched && !s.abandon {
+        if s.sched && !s.abandon && (!was_blocked || !someone_running(s)) {
             pick_next(s);
         }
     }
@@ -414,8 +489,12 @@ pub fn closure_enter(stage: u32, key: u32, val: i32, is_yield: bool) {
         if !(s.sched && !s.abandon && is_yield && me >= 1 && me <= s.workers.len()) {
             return;
         }
+        // a worker that had been set aside as Blocked comes back without the baton
+        let was_blocked = s.workers[me - 1] == St::Blocked;
         s.workers[me - 1] = St::Parked;
-        pick_next(s);
+        if !was_blocked || !someone_running(s) {
+            pick_next(s);
+        }
     }
     let mut g = wait_grant(g, me);
     let s = g.as_mut().expect("init");
